@@ -26,6 +26,9 @@ TECHNIQUE = 'abstract interpretation of the attribute-table merge on a symbolic 
 NAME = 'supp/name.py'
 MRO = ['D', 'B', 'A', 'C']          # D(B, C), B(A): depth-first left-to-right == C3 (no repeated ancestors)
 BASES = {'D': ['B', 'C'], 'B': ['A'], 'A': [], 'C': []}
+# thorough tier: depth 4, three bases: E(D, F, G), D(B, C), B(A)
+MRO_T = ['E', 'D', 'B', 'A', 'C', 'F', 'G']
+BASES_T = {'E': ['D', 'F', 'G'], 'D': ['B', 'C'], 'B': ['A'], 'A': [], 'C': [], 'F': [], 'G': []}
 
 
 class AssignsModel(dict):
@@ -48,9 +51,14 @@ def run(repo, res):
     it.memoise_cached = True
     bad_cls, bad_inst = [], []
     n = 0
+    global MRO, BASES
+    if getattr(repo, 'tier', 'quick') == 'thorough':
+        MRO, BASES = MRO_T, BASES_T
     try:
-        for body_bits in itertools.product([False, True], repeat=4):
-            for inst_bits in itertools.product([False, True], repeat=4):
+        for body_bits in itertools.product([False, True], repeat=len(MRO)):
+            for inst_bits in itertools.product([False, True], repeat=len(MRO)):
+                if len(MRO) > 4 and sum(inst_bits) > 2:
+                    continue      # thorough tier: every body subset x every set of at most two assigning classes
                 body = {c for c, b in zip(MRO, body_bits) if b}
                 inst = {c for c, b in zip(MRO, inst_bits) if b}
                 if not body and not inst:
@@ -68,22 +76,23 @@ def run(repo, res):
     except Uninterpretable as e:
         raise AnalysisError('attribute merge is outside the interpretable subset: %s' % e)
     res.count('hierarchy_scenarios', n, floor=255)
+    res.extra['hierarchy'] = {c: BASES[c] for c in MRO}
     co = repo.method(NAME, 'ClassObject', '_attrs')
     iv = repo.method(NAME, 'InstanceValue', '_attrs')
     res.obligations += n * 2 - 2
     res.discharged += n * 2 - 2 - (1 if bad_cls else 0) - (1 if bad_inst else 0)
     b = sorted(bad_cls, key=lambda x: (len(x[0]) + len(x[1])))[:1]
     res.check('C06-R1', 'ClassObject._attrs precedence', not bad_cls, NAME, co.lineno,
-              'class-level lookup on D(B, C), B(A): with the attribute defined in the bodies of %s the merged table '
+              'class-level lookup on the hierarchy %s: with the attribute defined in the bodies of %s the merged table '
               'holds %s, Python selects %s (%d of %d combinations differ)'
-              % (b[0][0] if b else '', b[0][2] if b else '', b[0][3] if b else '', len(bad_cls), n),
-              sample='ClassObject(D)._attrs agrees with the MRO D, B, A, C on all %d combinations' % n)
+              % (BASES, b[0][0] if b else '', b[0][2] if b else '', b[0][3] if b else '', len(bad_cls), n),
+              sample='ClassObject(%s)._attrs agrees with the MRO %s on all %d combinations' % (MRO[0], ', '.join(MRO), n))
     b = sorted(bad_inst, key=lambda x: (len(x[0]) + len(x[1])))[:1]
     res.check('C06-R1', 'InstanceValue._attrs precedence', not bad_inst, NAME, iv.lineno,
-              'instance lookup on D(B, C), B(A): attribute defined in the bodies of %s and assigned through self in %s: '
+              'instance lookup on the hierarchy ' + str(BASES) + ': attribute defined in the bodies of %s and assigned through self in %s: '
               'the merged table holds %s, Python selects %s (%d of %d combinations differ)'
               % (b[0][0] if b else '', b[0][1] if b else '', b[0][2] if b else '', b[0][3] if b else '', len(bad_inst), n),
-              sample='InstanceValue(D)._attrs agrees with instance-assignment > MRO on all %d combinations' % n)
+              sample='InstanceValue(%s)._attrs agrees with instance-assignment > MRO on all %d combinations' % (MRO[0], n))
 
     # ---- R3 dispatch chains -------------------------------------------------------------------------
     check_dispatch(repo, res, facts)
@@ -157,7 +166,7 @@ def scenario(it, facts, body, inst):
         objs[c].attrs['bases'] = [objs[b] for b in BASES[c]]
         if c in inst:
             assigns[objs[c]] = {'m': ('inst', c)}
-    d = objs['D']
+    d = objs[MRO[0]]
     cattrs = it.getattr(d, '_attrs')
     got_c = cattrs.get('m')
     # instances are created through supp's own ClassObject.call (raw function under the memo decorator)
